@@ -179,11 +179,34 @@ def _load_outcome(loader, path):
         return "X:" + type(e).__name__, None
 
 
+def _container_constants(res):
+    """the constants the Lean Npz model hard-codes, read from the installed NumPy / CPython"""
+    import inspect
+    import re
+
+    import numpy
+
+    want = {"zipfile.stringEndArchive": (zipfile.stringEndArchive, b"PK\x05\x06"), "zipfile.sizeEndCentDir": (zipfile.sizeEndCentDir, 22),
+            "numpy.lib.format.MAGIC_PREFIX": (numpy.lib.format.MAGIC_PREFIX, b"\x93NUMPY")}
+    src = inspect.getsource(numpy.load)
+    m1 = re.search(r"_ZIP_PREFIX\s*=\s*(b'[^']*')", src)
+    m2 = re.search(r"_ZIP_SUFFIX\s*=\s*(b'[^']*')", src)
+    want["np.load._ZIP_PREFIX"] = (eval(m1.group(1)) if m1 else None, b"PK\x03\x04")
+    want["np.load._ZIP_SUFFIX"] = (eval(m2.group(1)) if m2 else None, b"PK\x05\x06")
+    esrc = inspect.getsource(zipfile._EndRecData)
+    want["_EndRecData searches the last 64 KiB + 22"] = ("(1 << 16) - sizeEndCentDir" in esrc.replace("filesize - ", "") or "(1 << 16)" in esrc, True)
+    for k, (got, exp) in want.items():
+        if got != exp:
+            res.mismatches.append({"kind": "container-constants", "line": k, "expected": repr(exp), "got": repr(got), "case": {"slice": "truncate"}})
+    res.count("container_constants_checked", len(want))
+
+
 def truncate(res, rng, tier):
     t0 = time.time()
     sess = Session()
     ops = []
     n = 0
+    _container_constants(res)
     path = tmpfile()
     try:
         for label, cl, ml, data, orig in _saved_files(rng, tier):
